@@ -42,9 +42,28 @@ def term_text(t):
         return "V%d" % t[1]
     if k == "c":
         return T.const_text(t[1])
+    if k == "app" and t[1] == "{}":
+        # a struct literal {/f: e, /g: e'} (the parser reads it as fn:struct(/f, e, /g, e'))
+        a = t[2]
+        return "{" + ", ".join("%s: %s" % (term_text(a[i]), term_text(a[i + 1])) for i in range(0, len(a), 2)) + "}"
     if k == "app":
         return "%s(%s)" % (t[1], ", ".join(term_text(a) for a in t[2]))
     raise ValueError(t)
+
+
+def ty_text_dot(t):
+    """the `.Struct</f: T, opt /g: T'>` surface syntax (parse.VisitDotType) for structs, lists, unions, pairs"""
+    k = t[0]
+    if k == "struct":
+        parts = ["%s: %s" % (f, ty_text_dot(x)) for f, x in t[1]] + ["opt %s: %s" % (f, ty_text_dot(x)) for f, x in t[2]]
+        return ".Struct<%s>" % ", ".join(parts)
+    if k == "list":
+        return ".List<%s>" % ty_text_dot(t[1])
+    if k == "union":
+        return ".Union<%s>" % ", ".join(ty_text_dot(x) for x in t[1])
+    if k == "pair":
+        return ".Pair<%s, %s>" % (ty_text_dot(t[1]), ty_text_dot(t[2]))
+    return T.ty_text(t)
 
 
 def atom_text(p, args):
@@ -75,10 +94,11 @@ def fact_text(f):
 
 def program_text(prog):
     lines = []
+    tt = ty_text_dot if prog.get("dot") else T.ty_text
     for p, d in prog["decls"].items():
         vs = ", ".join("X%d" % i for i in range(d["arity"]))
         descr = (" descr [%s]" % d["descr"]) if d.get("descr") else ""
-        bounds = "".join(" bound [%s]" % ", ".join(T.ty_text(t) for t in row) for row in d["rows"])
+        bounds = "".join(" bound [%s]" % ", ".join(tt(t) for t in row) for row in d["rows"])
         lines.append("Decl %s(%s)%s%s." % (p, vs, descr, bounds))
     lines += [fact_text(f) for f in prog["init"]]
     lines += [rule_text(r) for r in prog["rules"]]
@@ -1014,6 +1034,359 @@ def gen_refine(rng):
     return prog
 
 
+# =============================================================================
+# Shapes added after the second round of seeding (notes/C11.md, "Strengthened after seeding, round 2")
+#
+#  structs   - a declared predicate whose bound is a STRUCT type with required and OPTIONAL fields (nested structs
+#              included, fn:Struct(..) and .Struct<..> syntax), and every way the program can supply a struct value
+#              for it: a base fact in the text, a struct literal / fn:struct(..) in the head, `S = {..}` in the
+#              body, a copy from another declared struct predicate (same field names, each field required or
+#              optional, same / narrower / wider / disjoint field types), an undeclared intermediate predicate
+#              (rule or unit clause).  Per field the supplied type conforms to the declared one or does not (one
+#              wrong field: required or optional, top level or nested).  Every supplied value has EXACTLY the declared
+#              field names (required and optional together), so the trigger of F7c (struct width: field-name sets
+#              differ) never occurs; no struct-typed variable is typed twice (N92).
+#  basefacts - two to four DECLARED predicates with base facts in the text whose argument-type tuples coincide
+#              across predicates ("heavy" / "12"), each fact well typed for its own declaration or not, several
+#              facts per predicate (the ill-typed one first / in the middle / last), facts and declarations in
+#              every textual order, predicate numbers drawn at random; optionally a consumer rule, a predicate with
+#              facts AND a rule, an undeclared predicate with facts of the same shape.  Inside the fragment of
+#              bounds_sound_partial: every program also goes through the model (Run/C11.judge).
+#
+# The verdict is the property's: accepted => every stored fact of a declared predicate passes CheckTypeBounds.
+def tkey(t):
+    return json.dumps(t)
+
+
+ST_FIELDS = ["/id", "/note", "/tag"]
+ST_NS = T.tunion([T.NUMBER, T.STRING])
+# declared leaf -> (supplied types that conform to it, supplied types that do not)
+ST_REL = {tkey(k): v for k, v in [
+    (T.NUMBER, ([T.NUMBER], [T.STRING, T.tc("/a"), T.ANY, ST_NS, T.tlist(T.NUMBER)])),
+    (T.STRING, ([T.STRING], [T.NUMBER, T.tc("/b"), T.ANY, ST_NS])),
+    (T.tc("/a"), ([T.tc("/a")], [T.tc("/b"), T.NAME, T.NUMBER, T.ANY])),
+    (T.NAME, ([T.NAME, T.tc("/a"), T.tc("/b")], [T.NUMBER, T.STRING, T.ANY])),
+    (T.ANY, ([T.NUMBER, T.STRING, T.tc("/a"), T.ANY, T.tlist(T.NUMBER)], [])),
+    (ST_NS, ([T.NUMBER, T.STRING, ST_NS], [T.tc("/a"), T.ANY, T.tlist(T.NUMBER)])),
+    (T.tlist(T.NUMBER), ([T.tlist(T.NUMBER)], [T.tlist(T.STRING), T.NUMBER, T.ANY])),
+]}
+ST_DECL_LEAVES = [T.NUMBER, T.NUMBER, T.STRING, T.STRING, T.tc("/a"), T.NAME, T.ANY, ST_NS, T.tlist(T.NUMBER)]
+# members offered for a supplied leaf type (the first ones are written in the text when a constant is wanted)
+ST_MEM = {tkey(k): v for k, v in [
+    (T.NUMBER, [T.cnum(1), T.cnum(2)]), (T.STRING, [T.cstr("s"), T.cstr("t")]),
+    (T.tc("/a"), [T.cname("/a/x"), T.cname("/a/y")]), (T.tc("/b"), [T.cname("/b/c")]),
+    (T.NAME, [T.cname("/x"), T.cname("/a/x"), T.cname("/b/c")]),
+    (T.ANY, [T.cstr("s"), T.cnum(1), T.cname("/x"), T.clist([T.cnum(1)])]),
+    (ST_NS, [T.cnum(1), T.cstr("s")]), (T.tlist(T.NUMBER), [T.clist([T.cnum(1)]), T.clist([T.cnum(1), T.cnum(2)])]),
+    (T.tlist(T.STRING), [T.clist([T.cstr("s")])]),
+]}
+
+
+def gen_st_type(rng, depth=1, nf=None):
+    """a struct type over a sample of ST_FIELDS, each field required or optional, a leaf or (rarely) a nested struct"""
+    names = rng.sample(ST_FIELDS, nf or rng.choice([1, 2, 2, 2, 3]))
+    req, opt = [], []
+    for f in names:
+        t = gen_st_type(rng, depth - 1, rng.choice([1, 2])) if depth > 0 and rng.random() < 0.15 else rng.choice(ST_DECL_LEAVES)
+        (opt if rng.random() < 0.5 else req).append([f, t])
+    return T.tstruct(req, opt)
+
+
+def st_vary(rng, t, ok):
+    """a type with the field names of t that conforms to t (ok) or differs in one field so that it does not.
+    Returns (type, ok actually achieved)."""
+    if t[0] != "struct":
+        good, bad = ST_REL[tkey(t)]
+        if ok or not bad:
+            return rng.choice(good), True
+        return rng.choice(bad), False
+    fields = [(f, x, False) for f, x in t[1]] + [(f, x, True) for f, x in t[2]]
+    wrong = None if ok else rng.randrange(len(fields))
+    keep = rng.random() < 0.5           # keep every flag (an optional field supplied as required is always fine for the checker)
+    req, opt, achieved = [], [], True
+    for i, (f, x, is_opt) in enumerate(fields):
+        s, good = st_vary(rng, x, i != wrong)
+        achieved = achieved and good
+        flag = (is_opt and rng.random() < 0.5) if keep else (rng.random() < 0.4)
+        (opt if flag else req).append([f, s])
+    rng.shuffle(req)
+    return T.tstruct(req, opt), achieved
+
+
+def st_members(rng, s, n=2):
+    """constants offered as members of the supplied type s (every field present)"""
+    if s[0] != "struct":
+        ms = ST_MEM[tkey(s)]
+        return ms[:n] if s != T.ANY else rng.sample(ms, n)
+    out = []
+    for k in range(n):
+        es = []
+        for f, x in s[1] + s[2]:
+            ms = st_members(rng, x, 2)
+            es.append([T.cname(f), ms[k % len(ms)]])
+        rng.shuffle(es)
+        out.append(T.cstruct(es))
+    return out
+
+
+def st_const(rng, t, ok):
+    """a constant for the text with exactly the fields of t: a member of t (ok), or wrong in one field"""
+    if t[0] != "struct":
+        s, good = st_vary(rng, t, ok)
+        return rng.choice(st_members(rng, s, 2)), good
+    fields = t[1] + t[2]
+    wrong = None if ok else rng.randrange(len(fields))
+    es, achieved = [], True
+    for i, (f, x) in enumerate(fields):
+        c, good = st_const(rng, x, i != wrong)
+        achieved = achieved and good
+        es.append([T.cname(f), c])
+    rng.shuffle(es)
+    return T.cstruct(es), achieved
+
+
+class StCtx:
+    def __init__(self):
+        self.cols = []          # type of the source column that binds variable i
+
+    def newvar(self, s):
+        self.cols.append(s)
+        return ["var", len(self.cols) - 1]
+
+
+def st_supply(rng, t, ok, ctx, lit, top_var=False):
+    """a term supplying a value for the declared type t: struct literals (every declared field, shuffled) over
+    variables bound by a source predicate whose columns have the chosen types, constants, or a variable of a
+    struct-typed source column.  Returns (term, ok actually achieved)."""
+    if t[0] != "struct":
+        s, good = st_vary(rng, t, ok)
+        if rng.random() < 0.3:
+            return ["c", rng.choice(st_members(rng, s, 2))], good
+        return ctx.newvar(s), good
+    if top_var or rng.random() < 0.2:
+        s, good = st_vary(rng, t, ok)
+        return ctx.newvar(s), good
+    fields = t[1] + t[2]
+    wrong = None if ok else rng.randrange(len(fields))
+    parts, achieved = [], True
+    for i, (f, x) in enumerate(fields):
+        e, good = st_supply(rng, x, i != wrong, ctx, lit)
+        achieved = achieved and good
+        parts.append([["c", T.cname(f)], e])
+    rng.shuffle(parts)
+    return ["app", "{}" if lit else "fn:struct", [y for p in parts for y in p]], achieved
+
+
+def mk_structs(t, form, term, cols, ids, extra_row=None, facts=(), unit=None, arity2=None, dot=False, pre_cap=36, rng=None):
+    """form: fact | head | eq | eqrev | copy | undecl | unit-undecl.  t: the declared struct type of `item`;
+    term: the supplied term (rule forms); cols: column types of the source predicate (variable i = column i);
+    facts: struct constants written as base facts of item; unit: constant of the undeclared unit clause."""
+    nm = lambda i: "p%d" % ids[i]
+    item, src, q = nm(0), nm(1), nm(2)
+    rows = [[t]] + ([[extra_row]] if extra_row is not None else [])
+    hargs = None
+    cols = list(cols)
+    if arity2 is not None:
+        # a second, plain column of item (position arity2), bound by one more source column
+        rows = [([T.NUMBER] + r) if arity2 == 0 else (r + [T.NUMBER]) for r in rows]
+        cols.append(T.NUMBER)
+    decls = {item: {"arity": len(rows[0]), "rows": rows}}
+    rules, undecl, init, pre = [], {}, [], []
+    extra = ["var", len(cols) - 1]
+    wrap = lambda x: [x] if arity2 is None else ([extra, x] if arity2 == 0 else [x, extra])
+    wrapc = lambda c: [c] if arity2 is None else ([T.cnum(7), c] if arity2 == 0 else [c, T.cnum(7)])
+    if form not in ("fact", "unit-undecl"):
+        if not cols:
+            cols = [T.NUMBER]
+        decls[src] = {"arity": len(cols), "rows": [list(cols)]}
+        body = [["atom", src, [V(i) for i in range(len(cols))]]]
+        fresh = V(len(cols))
+        if form == "head":
+            rules.append({"head": [item, wrap(term)], "body": body})
+        elif form in ("eq", "eqrev"):
+            eq = ["eq", fresh, term] if form == "eq" else ["eq", term, fresh]
+            rules.append({"head": [item, wrap(fresh)], "body": body + [eq]})
+        elif form == "copy":
+            rules.append({"head": [item, wrap(term)], "body": body})
+        elif form == "undecl":
+            rules.append({"head": [q, wrap(term)], "body": body})
+            rules.append({"head": [item, [V(i) for i in range(len(rows[0]))]],
+                          "body": [["atom", q, [V(i) for i in range(len(rows[0]))]]]})
+            undecl[q] = len(rows[0])
+        # candidates for the source predicate: members of each column type (and one constant beside it)
+        per = [T.dedup(st_members(rng, s, 2) + ([T.cnum(2)] if s[0] != "struct" and rng.random() < 0.3 else [])) for s in cols]
+        tuples = list(itertools.islice(itertools.product(*per), 400))
+        if len(tuples) > pre_cap:
+            tuples = rng.sample(tuples, pre_cap)
+        pre = [[src, list(tp)] for tp in tuples]
+    elif form == "unit-undecl":
+        init.append([q, wrapc(unit)])
+        rules.append({"head": [item, [V(i) for i in range(len(rows[0]))]],
+                      "body": [["atom", q, [V(i) for i in range(len(rows[0]))]]]})
+        undecl[q] = len(rows[0])
+    init += [[item, wrapc(c)] for c in facts]
+    return {"decls": decls, "rules": rules, "init": init, "pre": pre, "undecl": undecl, "dot": dot, "stream": "structs"}
+
+
+def gen_structs(rng):
+    t = gen_st_type(rng, 1)
+    form = rng.choice(["fact", "fact", "head", "head", "eq", "eq", "eqrev", "copy", "copy", "undecl", "unit-undecl"])
+    ok = rng.random() < 0.4
+    ctx, term, unit, facts = StCtx(), None, None, []
+    if form == "fact":
+        n = rng.choice([1, 1, 2, 3])
+        wrong = None if ok else rng.randrange(n)
+        facts = [st_const(rng, t, k != wrong)[0] for k in range(n)]
+    elif form == "unit-undecl":
+        unit = st_const(rng, t, ok)[0]
+    else:
+        term, _ = st_supply(rng, t, ok, ctx, rng.random() < 0.6, top_var=form == "copy")
+        if form == "eqrev" and term[0] == "var":
+            form = "eq"                                   # `V0 = V1` does not bind V1
+        if rng.random() < 0.2:
+            facts = [st_const(rng, t, True)[0]]          # a predicate with a rule and a base fact
+    extra_row = None
+    r = rng.random()
+    if r < 0.12:
+        extra_row = T.STRING
+    elif r < 0.25:
+        extra_row = st_vary(rng, t, False)[0]
+    arity2 = rng.choice([0, 1]) if rng.random() < 0.2 else None
+    return mk_structs(t, form, term, ctx.cols, rng.sample(range(40), 3), extra_row, facts, unit, arity2,
+                      dot=rng.random() < 0.4, rng=rng)
+
+
+BF_TYPES = [T.NUMBER, T.STRING, T.tc("/a"), T.tc("/b"), T.tlist(T.NUMBER)]
+BF_CONSTS = {tkey(k): v for k, v in [
+    (T.NUMBER, [T.cnum(1), T.cnum(2), T.cnum(12)]), (T.STRING, [T.cstr("s"), T.cstr("heavy"), T.cstr("12")]),
+    (T.tc("/a"), [T.cname("/a/x"), T.cname("/a/y")]), (T.tc("/b"), [T.cname("/b/c"), T.cname("/b/d")]),
+    (T.tlist(T.NUMBER), [T.clist([T.cnum(1)]), T.clist([T.cnum(2), T.cnum(3)])]),
+]}
+
+
+def bf_wider(rng, t):
+    """a declared column type that admits the members of the leaf t"""
+    r = rng.random()
+    if r < 0.6:
+        return t
+    if r < 0.7:
+        return T.ANY
+    if r < 0.8 and t in (T.tc("/a"), T.tc("/b")):
+        return T.NAME
+    others = [x for x in BF_TYPES if x != t]
+    return T.tunion([t, rng.choice(others)] if rng.random() < 0.5 else [rng.choice(others), t])
+
+
+def mk_basefacts(decls_in_order, facts_in_order, rules=(), undecl=None):
+    """decls_in_order: [(name, arity, rows)]; facts_in_order: [(name, [constants])] in their textual order"""
+    decls = {p: {"arity": ar, "rows": rows} for p, ar, rows in decls_in_order}
+    return {"decls": decls, "rules": list(rules), "init": [[p, list(cs)] for p, cs in facts_in_order], "pre": [],
+            "undecl": dict(undecl or {}), "stream": "basefacts"}
+
+
+def gen_basefacts(rng):
+    ar = 1 if rng.random() < 0.6 else 2
+    npred = rng.choice([2, 2, 3, 3, 4])
+    shapes = T.dedup([[rng.choice(BF_TYPES) for _ in range(ar)] for _ in range(rng.choice([1, 2, 2, 3]))])
+    ids = rng.sample(range(40), npred + 3)
+    nbad = rng.choice([0, 0, 0, 0, 1, 1, 1, 1, 1, 2])
+    bad_preds = set(rng.sample(range(npred), min(nbad, npred)))
+    decl_list, facts = [], []
+    for k in range(npred):
+        name = "p%d" % ids[k]
+        mine = [rng.choice(shapes) for _ in range(rng.choice([1, 1, 2, 3]))]
+        wrong = rng.choice(mine) if k in bad_preds else None
+        admitted = T.dedup([s for s in mine if s != wrong])
+        if not admitted:
+            # the declaration is about another tuple: it differs from the fact's types in at least one column
+            alt = list(wrong)
+            i = rng.randrange(ar)
+            alt[i] = rng.choice([x for x in BF_TYPES if x != wrong[i]])
+            admitted = [alt]
+        if len(admitted) > 1 and ar == 1 and rng.random() < 0.3:
+            rows = [[T.tunion([s[0] for s in admitted])]]
+        elif wrong is None and rng.random() < 0.05:
+            rows = []
+        else:
+            # exact types where an ill-typed fact must stay outside every row
+            rows = [[(bf_wider(rng, x) if wrong is None else x) for x in s] for s in admitted]
+            rng.shuffle(rows)
+        decl_list.append((name, ar, rows))
+        for s in mine:
+            facts.append((name, [rng.choice(BF_CONSTS[tkey(x)]) for x in s]))
+    rules, undecl = [], {}
+    r = rng.random()
+    if r < 0.3:
+        # a declared consumer with the rows of its source (sound)
+        p, _, rows = rng.choice(decl_list)
+        name = "p%d" % ids[npred]
+        decl_list.append((name, ar, [list(x) for x in rows]))
+        rules.append({"head": [name, [V(i) for i in range(ar)]], "body": [["atom", p, [V(i) for i in range(ar)]]]})
+    elif r < 0.45:
+        # an undeclared predicate with a base fact of one of the shapes and a rule; a declared consumer
+        s = rng.choice(shapes)
+        u, name = "p%d" % ids[npred], "p%d" % ids[npred + 1]
+        p, _, prows = rng.choice(decl_list)
+        undecl[u] = ar
+        facts.append((u, [rng.choice(BF_CONSTS[tkey(x)]) for x in s]))
+        rules.append({"head": [u, [V(i) for i in range(ar)]], "body": [["atom", p, [V(i) for i in range(ar)]]]})
+        crow = [list(s)] + [list(x) for x in prows] if rng.random() < 0.6 else [list(x) for x in prows] or [list(s)]
+        decl_list.append((name, ar, T.dedup(crow)))
+        rules.append({"head": [name, [V(i) for i in range(ar)]], "body": [["atom", u, [V(i) for i in range(ar)]]]})
+    elif r < 0.55 and npred >= 2:
+        # a predicate with base facts AND a rule copying another predicate's facts
+        (p, _, prows), (o, _, orows) = rng.sample(decl_list, 2)
+        rules.append({"head": [p, [V(i) for i in range(ar)]], "body": [["atom", o, [V(i) for i in range(ar)]]]})
+    rng.shuffle(facts)
+    rng.shuffle(decl_list)
+    return mk_basefacts(decl_list, facts, rules, undecl)
+
+
+def exhaustive_round2(rng):
+    """(f) structs: fields /id, /note; each declared required / optional; declared and supplied field types from
+    {/number, /string}; supplied as a base fact, a struct literal in the head, `S = {..}`, or a copy from a declared
+    predicate whose struct type has each field required / optional.  (g) basefacts: two unary declared predicates,
+    each declared /number, /string or /a, with 1+1, 2+1 or 1+2 base facts drawn from {1, "s", /a/x} in EVERY textual
+    order, the first predicate sorted before / after the second."""
+    progs = []
+    two = [T.NUMBER, T.STRING]
+    mem = {tkey(T.NUMBER): T.cnum(1), tkey(T.STRING): T.cstr("s")}
+    for opt_id in (False, True):
+        for opt_note in (False, True):
+            for d_id in two:
+                for d_note in two:
+                    fs = [["/id", d_id, opt_id], ["/note", d_note, opt_note]]
+                    t = T.tstruct([[f, x] for f, x, o in fs if not o], [[f, x] for f, x, o in fs if o])
+                    for s_id in two:
+                        for s_note in two:
+                            c = T.cstruct([[T.cname("/note"), mem[tkey(s_note)]], [T.cname("/id"), mem[tkey(s_id)]]])
+                            progs.append(mk_structs(t, "fact", None, [], [0, 1, 2], facts=[c], rng=rng))
+                            lit = ["app", "{}", [["c", T.cname("/note")], V(1), ["c", T.cname("/id")], V(0)]]
+                            progs.append(mk_structs(t, "head", lit, [s_id, s_note], [0, 1, 2], rng=rng, dot=True))
+                            progs.append(mk_structs(t, "eq", lit, [s_id, s_note], [0, 1, 2], rng=rng))
+                            for so_id in (False, True):
+                                for so_note in (False, True):
+                                    ss = [["/id", s_id, so_id], ["/note", s_note, so_note]]
+                                    s = T.tstruct([[f, x] for f, x, o in ss if not o], [[f, x] for f, x, o in ss if o])
+                                    progs.append(mk_structs(t, "copy", V(0), [s], [0, 1, 2], rng=rng))
+    three = [T.NUMBER, T.STRING, T.tc("/a")]
+    consts = [T.cnum(1), T.cstr("s"), T.cname("/a/x")]
+    for d0 in three:
+        for d1 in three:
+            for n0, n1 in ((1, 1), (2, 1), (1, 2)):
+                for f0 in itertools.combinations(consts, n0):
+                    for f1 in itertools.combinations(consts, n1):
+                        facts = [("A", [c]) for c in f0] + [("B", [c]) for c in f1]
+                        for order in itertools.permutations(facts):
+                            for a, b in (("p0", "p1"), ("p1", "p0")):
+                                if (a, b) == ("p1", "p0") and (n0, n1) != (1, 1):
+                                    continue
+                                nm = {"A": a, "B": b}
+                                progs.append(mk_basefacts([(a, 1, [[d0]]), (b, 1, [[d1]])],
+                                                          [(nm[p], cs) for p, cs in order]))
+    return progs
+
+
 # --------------------------------------------------------------------- probes
 PROBES = {
     "N92": [
@@ -1071,6 +1444,10 @@ def probes(ck):
 
 
 # ----------------------------------------------------------------- the check
+def case_of(prog):
+    return {k: prog[k] for k in ("decls", "rules", "init", "pre", "dot") if k in prog}
+
+
 def go_case(prog):
     return {"src": program_text(prog), "pre": "\n".join(fact_text(f) for f in prog["pre"]),
             "limit": 5000, "timeout_ms": 8000}
@@ -1133,7 +1510,7 @@ def analyse(ck, progs, outs, stats):
             rep = {"kind": "accepted by AnalyzeAndCheckBounds(ErrorForBoundsMismatch); after evaluation a stored fact of a "
                            "declared predicate fails TypeChecker.CheckTypeBounds",
                    "program": program_text(prog), "pre": go_case(prog)["pre"], "failing_facts": out["bad"],
-                   "case": {k: prog[k] for k in ("decls", "rules", "init", "pre")}}
+                   "case": case_of(prog)}
             if st in ("n92-shaped", "f7-shaped", "mode"):
                 stats["attributed"][st] = stats["attributed"].get(st, 0) + 1
             else:
@@ -1181,7 +1558,7 @@ def analyse(ck, progs, outs, stats):
             stats["judge"]["disagreement outside the sound fragment"] = stats["judge"].get("disagreement outside the sound fragment", 0) + 1
         rep = {"kind": JUDGE[v], "judge_code": v, "program": program_text(prog), "pre": go_case(prog)["pre"],
                "go": {k: out[k] for k in ("stage", "msg", "nbad", "bad") if k in out},
-               "case": {k: prog[k] for k in ("decls", "rules", "init", "pre")}}
+               "case": case_of(prog)}
         if v == 3:
             if not any(p[0] == i and p[2] == "" for p in problems):
                 problems.append((i, rep, ""))
@@ -1294,8 +1671,13 @@ def run(ck):
             prog["stream"] = "wide" if wide else "fragment"
         prog["to_model"] = (not wide) or (k % 4 == 0)
         progs.append(prog)
+    n_st, n_bf = ck.n(70, 1500), ck.n(60, 1500)
+    for k in range(n_st + n_bf):
+        prog = gen_structs(rng) if k < n_st else gen_basefacts(rng)
+        prog["to_model"] = k >= n_st and (ck.quick or k % 2 == 0)      # struct constants are outside the Datalog model
+        progs.append(prog)
     exhaustive = not ck.quick
-    nexh = nexh2 = 0
+    nexh = nexh2 = nexh3 = 0
     if exhaustive:
         for prog in exhaustive_programs():
             prog["stream"] = "n92-shaped" if n92_shaped(prog) else "exhaustive"
@@ -1306,7 +1688,11 @@ def run(ck):
             prog["to_model"] = True
             progs.append(prog)
             nexh2 += 1
-    ck.log("%d programs (%d corpus, %d exhaustive block)" % (len(progs), ncorpus, nexh + nexh2))
+        for prog in exhaustive_round2(rng):
+            prog["to_model"] = prog["stream"] == "basefacts"
+            progs.append(prog)
+            nexh3 += 1
+    ck.log("%d programs (%d corpus, %d exhaustive block)" % (len(progs), ncorpus, nexh + nexh2 + nexh3))
     outs = ck.run_go("c11", [go_case(p) for p in progs], timeout=3000)
     ck.log("go done")
     stats = new_stats()
